@@ -74,7 +74,7 @@ static void env_all()
   for (int k = 0; k < 4; k++)
     cases.push_back({"string", k});
   vr::run_sharded(1, [&](int shard, long long resume_after) {
-    partial_enter(1000000);
+    partial_enter(1000000, resume_after);
     for (size_t i = 0; i < cases.size(); i++) {
       if ((long long)i <= resume_after)
         continue;
